@@ -10,7 +10,7 @@ Ltac finish_dead :=
   split; [ repeat split; try typed_ok; try lia; try reflexivity |];
   repeat split; reflexivity.
 Ltac solve_dead :=
-  unfold post; cb; use_hyps; rewrite ?Z.eqb_refl, ?zlist_eqb_refl; cb; split_ifs2; finish_dead.
+  unfold post, law_step; lazy beta iota zeta delta [plain sval nth nth_error fst snd tv snap_of]; use_hyps; cb; use_hyps; rewrite ?Z.eqb_refl, ?zlist_eqb_refl; cb; split_ifs2; finish_dead.
 
 (* ---------- object 1 is dead: object 0 behaves like an unlinked object ---------- *)
 Lemma dead_assign F w va vb nts k v :
